@@ -130,6 +130,35 @@ JudgeC09(e) ==
           <<e.res # "nil" \/ ~Has(e, "consumed") \/ e.consumed = Len(InOf(e)), "DecodeBebop consumed a different number of bytes">> >>)
     [] OTHER -> NAv
 
+\* C06: every strict prefix of a valid encoding is an error - no crash, no hang,
+\* no allocation out of proportion to the input
+JudgeC06(e) ==
+  LET c == CaseOf(e)  S == SchemaOf(c)  t == TypeOf(c) IN
+  CASE e.ev = "cut" ->
+        IF e.res = "err" /\ ~e.big THEN OKv
+        ELSE LET in == SubSeq(c.enc, 1, e.k)
+                 why == e.api \o " on a strict prefix: " \o
+                        (IF e.res = "err" THEN "allocation out of proportion to the input"
+                         ELSE IF e.res = "nil" THEN "no error" ELSE e.res)
+                        \o " (input ends in " \o RoleOf(c.lay[e.k + 1]) \o ")"
+                 dev == IF e.api = "UnmarshalBebop" THEN AsIsByteFailure(Devs, S, t, in)
+                        ELSE AsIsStreamFailure(Devs, S, t, in)
+             IN IF dev # "" THEN Known(dev, why) ELSE Bad(why)
+    [] OTHER -> NAv
+
+\* C07: arbitrary bytes: nil or an error, never a panic, a hang or a runaway allocation
+JudgeC07(e) ==
+  LET c == CaseOf(e)  S == SchemaOf(c)  t == TypeOf(c) IN
+  CASE e.ev = "corrupt" ->
+        IF e.res \in {"nil", "err"} /\ ~e.big THEN OKv
+        ELSE LET in == c.inputs[e.idx + 1]
+                 why == e.api \o " on corrupt input: " \o
+                        (IF e.res \in {"nil", "err"} THEN "allocation out of proportion to the input" ELSE e.res)
+                 dev == IF e.api = "UnmarshalBebop" THEN AsIsByteFailure(Devs, S, t, in)
+                        ELSE AsIsStreamFailure(Devs, S, t, in)
+             IN IF dev # "" THEN Known(dev, why) ELSE Bad(why)
+    [] OTHER -> NAv
+
 \* C12: whatever the generator accepts compiles
 JudgeC12(e) ==
   LET c == CaseOf(e)  sch == Schemas[c.si] IN
@@ -145,6 +174,8 @@ Judge(e) ==
   CASE Prop = "C01" -> JudgeC01(e)
     [] Prop = "C12" -> JudgeC12(e)
     [] Prop = "C09" -> JudgeC09(e)
+    [] Prop = "C06" -> JudgeC06(e)
+    [] Prop = "C07" -> JudgeC07(e)
     [] Prop = "C02" -> JudgeC02(e)
     [] Prop = "C03" -> JudgeC03(e)
     [] OTHER -> NAv
